@@ -688,6 +688,42 @@ theorem sum_of_lenProvidersAre (l : List (Option MixinName)) (exp : List MixinNa
   rw [sum_filterMap_id]
   exact perm_sum_int ((perm_of_lenProvidersAre l exp h).map f)
 
+/-! ### family-independent bounds from `ClassWF` / `cfgWF`, the TrustZone bits of the flag word -/
+
+theorem classWF_imageType_le {c : Cls} (h : ClassWF c = true) : c.imageType ≤ imageTypeMask := by
+  apply Classical.byContradiction
+  intro hn
+  have hd : decide (c.imageType ≤ imageTypeMask) = false := by simpa using hn
+  unfold ClassWF at h
+  simp only [hd, Bool.false_and] at h
+  exact absurd h (by decide)
+
+theorem cfgWF_subType_le {c : Cls} {cfg : Cfg} (h : cfgWF c cfg = true) : cfg.subType ≤ subTypeMask := by
+  apply Classical.byContradiction
+  intro hn
+  have hd : decide (cfg.subType ≤ subTypeMask) = false := by simpa using hn
+  unfold cfgWF at h
+  simp only [hd, Bool.false_and, Bool.and_false] at h
+  exact absurd h (by decide)
+
+theorem cfgWF_imageVersion_le {c : Cls} {cfg : Cfg} (h : cfgWF c cfg = true) : cfg.imageVersion ≤ imgVerMask := by
+  apply Classical.byContradiction
+  intro hn
+  have hd : decide (cfg.imageVersion < 2 ^ 16) = false := by
+    simp only [imgVerMask] at hn; simp only [decide_eq_false_iff_not]; omega
+  unfold cfgWF at h
+  simp only [hd, Bool.false_and, Bool.and_false] at h
+  exact absurd h (by decide)
+
+theorem tzTag_le (t : TzCfg) : t.tag ≤ tzTypeMask := by
+  cases t <;> simp [TzCfg.tag, tzTypeMask, tzEnabled, tzCustom, tzDisabled]
+
+/-- the TrustZone-type bits of the flag word are the tag of the setting (classes with TrustZone), else 0 -/
+theorem getTzType_flagsOf {co : CryptoOps} {env : Env} {c : Cls} {cfg : Cfg} {signer : Signer}
+    (h : Hyp co env c cfg signer) : getTzType (flagsOf c cfg) = (if c.hasTrustZone then cfg.tz.tag else 0) :=
+  (flags_fields c.imageType cfg.tz.tag cfg.subType cfg.imageVersion _ c.hasTrustZone _ _ _ _ _ _ _ _ _ _
+    (classWF_imageType_le h.hcls) (tzTag_le cfg.tz) (cfgWF_subType_le h.hcfg) (cfgWF_imageVersion_le h.hcfg)).2.1
+
 /-! ### examples used for non-vacuity in Properties/C01.lean -/
 
 def exampleCrcClass : Cls :=
